@@ -378,6 +378,13 @@ structure QueryResultItem where
   closest_genomes : List GenomeMatch
   deriving Repr, DecidableEq, Inhabited
 
+/-- `validate_dna_seq_bytes`: only the four upper-case nucleotide codes -/
+def validDna (b : List UInt8) : Bool := b.all (fun c => c == 65 || c == 67 || c == 71 || c == 84)
+/-- `str.upper()` / `str.encode('ascii')` on text (ASCII letters; `encode` raises on a non-ASCII character) -/
+def strUpper (s : List Char) : List Char := s.map Char.toUpper
+def isAscii (s : List Char) : Bool := s.all (fun c => c.toNat < 128)
+def encodeAscii (s : List Char) : List UInt8 := s.map (fun c => UInt8.ofNat c.toNat)
+
 /-- `a // b` (floor division) and `a % b` of Python for `b ≠ 0` -/
 def floorDiv (a b : Int) : Int := Int.fdiv a b
 def pyMod (a b : Int) : Int := Int.fmod a b
